@@ -31,7 +31,8 @@ reg("C01", "exploration",
 
 reg("C02", "exploration",
     "Generated-input search, differential and absolute: bulkwalk (bulk sizes 1..50, weighted around subtree "
-    "sizes) against the reference agent under generated conformant GETBULK truncation scripts is compared with "
+    "sizes) against the reference agent under generated conformant GETBULK truncation scripts "
+    "(incl. agents with a fixed limit of 1..5 bindings per response for the whole walk) is compared with "
     "the GETNEXT multiwalk of the same roots on a fresh agent AND with the agent's database (so both walks being "
     "wrong the same way is still caught). Thorough adds the exhaustive small scope x bulk 1..4 x 3 truncation policies.",
     "Trusts lib/vagent.py's GETBULK (RFC 3416 4.2.3) incl. truncation; instances equal to a root are ignored in the differential half.",
@@ -143,7 +144,7 @@ reg("C16", "exploration",
     "1..12, 0..10 rows, index suffixes of 1..4 components with sub-identifiers up to 2^32-1, per-cell presence, neighbours "
     "directly before / after, a sibling whose arc textually extends the table's arc, or nothing after the table) are fetched "
     "through Client.table, Client.bulktable (bulk 1..30, generated conformant GETBULK truncation), PyWrapper.table and "
-    "PyWrapper.bulktable against the reference agent; every variant must return exactly the rows computed from the database "
+    "PyWrapper.bulktable against the reference agent over v2c, SNMPv3 and (GETNEXT variants) SNMPv1; every variant must return exactly the rows computed from the database "
     "(one per index, '0' = dotted index, one entry per present cell, nothing from outside the table), hence all variants agree.",
     "Trusts lib/vagent.py; rows are compared as a multiset (order unspecified); table() takes the entry OID and bulktable() the table OID as documented.",
     "Hypothesis property-based testing with an absolute database oracle across four fetch variants",
@@ -228,7 +229,9 @@ reg("C13", "fault_enumeration",
     "virtual and whose datagram endpoints are scripted and recorded. Oracle (model of attempts): at most `retries` endpoints, "
     "exactly one byte-identical sendto per endpoint, the first in-time reply returned unmodified at virtual time (k-1)*T+d, Timeout "
     "at exactly retries*T, OS errors propagate or count as unanswered, every transport closed or aborted once the call has "
-    "returned or raised and the loop has drained, no exception inside loop callbacks. A real-socket tier on 127.0.0.1 (scripted "
+    "returned or raised and the loop has drained, no exception inside loop callbacks. Generated cases add retries up to 6, event "
+    "times at drawn fractions of the timeout on both sides of it, and calls cancelled from outside (the caller's own deadline) at "
+    "drawn virtual times -- the sockets must be closed then as well. A real-socket tier on 127.0.0.1 (scripted "
     "responder, closed ports) checks datagram counts, results, lower time bounds and /proc/self/fd accounting.",
     "Virtual tier relies on a model of asyncio's datagram transport (no delivery after close/abort; connection_lost via call_soon); the loopback tier keeps the model honest. If create_datagram_endpoint is no longer used the virtual tier reports itself inconclusive.",
     "exhaustive enumeration of network-outcome sequences on a virtual-time event loop + real loopback sockets",
@@ -240,7 +243,9 @@ reg("C14", "exploration",
     "future and a driver releases pending requests one at a time -- answering them through the reference agent or dropping them "
     "(the seam honours the retries it is handed, exactly as send_udp does) -- following a choice sequence. A DFS enumerates ALL "
     "schedules of every pair (and triples) from {get, getnext, walk, bulkwalk, set, multiget} on one client and of two clients on one "
-    "loop, for v2c and SNMPv3 (concurrent first use => concurrent discovery), with and without one lost datagram per operation; "
+    "loop (incl. two SNMPv3 users sharing pass-phrases but not the hash), for v2c and SNMPv3 (concurrent first use => concurrent "
+    "discovery), with and without one lost datagram per operation, and with one operation given up by its caller (task cancelled) "
+    "at every point of the schedule; "
     "Hypothesis draws longer choice sequences for 2..6 operations. A stepping wall clock makes request ids differ between "
     "operations. Oracle: each operation's outcome equals the outcome of the same operation alone on a fresh client and agent losing "
     "the same number of datagrams; every SNMPv3 request the agent sees verifies (no mixed users, keys or engine data).",
